@@ -262,13 +262,14 @@ def gen_merkle(rng, tier):
 		else:
 			positions = [rng.choice([count - 1, rng.randrange(count)])]
 		positions = [p for p in positions if 0 <= p < count]
-		if full or count % 5 == 0:
+		if (full and (count <= 130 or count in rich)) or count % 5 == 0:
 			cases.append({'kind': 'paths', 'count': count, 'leaves': blob, 'positions': positions})
 		root = p_root(leaves)
+		with_model = set(positions if len(positions) <= 8 else rng.sample(positions, 6) + [0, count - 1])
 		for position in positions:
 			path = p_path(leaves, position)
 			honest = {'kind': 'prove', 'count': count, 'position': position, 'leaf': leaves[position].hex(),
-				'path': [[h.hex(), left] for h, left in path], 'root': root.hex()}
+				'path': [[h.hex(), left] for h, left in path], 'root': root.hex(), 'nomodel': position not in with_model}
 			wanted = ('leaf-bit', 'root-bit', 'path-bit', 'side-flag', 'other-leaf') if full else next(corruption_cycle)
 			cases.append(dict(honest, what='honest', expect=True))
 			if 'leaf-bit' in wanted:
@@ -468,8 +469,9 @@ def gen_patricia(rng, tier):
 		count = rng.randrange(5, 60)
 		trees.append(('random', [(nibbles_of(rand_bytes(rng, 32)), rand_bytes(rng, 32)) for _ in range(count)]))
 	corruption_cycle = itertools.cycle(['state', 'unanchored', 'value', 'unlinked-drop', 'unlinked-leaf-path', 'key-nibble', 'truncated'])
-	for shape, items in trees:
+	for tree_number, (shape, items) in enumerate(trees):
 		root = build_tree(items)
+		nomodel = tier == 'thorough' and shape == 'small' and tree_number % 5 != 0
 		other_roots = [rand_bytes(rng, 32) for _ in range(rng.randrange(0, 3))]
 		position = rng.randrange(len(other_roots) + 1)
 		roots = other_roots[:position] + [root.hash()] + other_roots[position:]
@@ -484,7 +486,7 @@ def gen_patricia(rng, tier):
 				'buf': b''.join(node.serialize() for node in chain).hex(), 'nodes': [node.render() for node in chain],
 				'state': state.hex(), 'roots': [r.hex() for r in root_list],
 				'expect': p_verdict(key, value, chain, state, root_list) if judged else None,
-				'inner_paths': any(node.path for node in chain[:-1])})
+				'inner_paths': any(node.path for node in chain[:-1]), 'nomodel': nomodel})
 
 		present = items if (tier == 'thorough' or shape == 'small') else rng.sample(items, 3)
 		for key_nibbles, value in present:
@@ -689,7 +691,7 @@ def cost(case):
 
 def evaluate_models(cases):
 	"""Evaluates all model expressions, heavy ones in their own shard."""
-	order = sorted(range(len(cases)), key=lambda i: -cost(cases[i]))
+	order = sorted((i for i in range(len(cases)) if not cases[i].get('nomodel')), key=lambda i: -cost(cases[i]))
 	results = [None] * len(cases)
 	groups = [([i for i in order if cost(cases[i]) >= 150], 1), ([i for i in order if 20 <= cost(cases[i]) < 150], 3),
 		([i for i in order if cost(cases[i]) < 20], 24)]
@@ -834,8 +836,10 @@ def run(check, unrecognised):
 		label = case['kind'] + (':' + case['what'] if 'what' in case else '') + (':' + case['mode'] if 'mode' in case else '')
 		if case['kind'] == 'patricia' and case['expect'] is not None:
 			label += f':{hex(case["expect"])}'
+		if mod is None:
+			label += ':implementation-and-oracle-only'
 		check.case(label, repr(sorted(case.items())), nontrivial=out != 'not-a-transaction')
-		if out != mod and out != 'not-a-transaction':
+		if mod is not None and out != mod and out != 'not-a-transaction':
 			check.disagree(names[case['kind']], describe(case), out, mod)
 		problem = oracle(case, out)
 		if problem:
